@@ -152,7 +152,11 @@ def check_scale(case, ctx: Ctx):
         g = 16 * (k + 2) * 2.0 ** -52
         n = len(case["data"])
         wsum = float(s0_.weight)
-        if wsum > 0:
+        # (scaled sums that fall into the subnormal range have lost digits: no moments to compare there)
+        tiny = any(0 < abs(float(x)) < 1e-290 for x in (s1.sum, s1.sum2, s1.weight, s0_.sum2))
+        if tiny:
+            ctx.label("subnormal_statistics_skipped")
+        if wsum > 0 and not tiny:
             require(math.isclose(s1.weight, wsum * float(factor), rel_tol=g), "stat_weight", f"{s1.weight} vs {wsum * float(factor)}")
             require(float(s1.min) == float(s0_.min) and float(s1.max) == float(s0_.max), "stat_minmax", f"{s1.min},{s1.max}")
             scale = max(abs(float(s0_.min)), abs(float(s0_.max)), 1e-300)
